@@ -1,5 +1,6 @@
 import OasisProofs.Helpers.RegistryAuth
 import OasisProofs.Helpers.RegistryKeys
+import OasisProofs.Helpers.RegistryGenesis
 import OasisProofs.Helpers.RegistrySteps
 import Generated.RegistrySetNode
 /-
@@ -76,21 +77,24 @@ theorem lookup_is_current (s : State) (h : invB s = true) (k : Key) (n : Node)
 theorem inv_init (p : Params) : Inv (init p) := by
   refine { toIndexInv := ?_, cl_sound := ?_, cl_compl := ?_, st_nodes := ?_, nodes_nodup := ?_ }
   · constructor <;> intros <;> simp_all [init]
-  · intro a c h; simp [init] at h
-  · intro a c h
+  · intro a c ths h; simp [init] at h
+  · intro a c ths h
     cases c <;> simp [Implied, init] at h
-  · intro id; simp [init]
+  · intro id n h; simp [init] at h
   · simp [init, Map.keys]
 
 /-- Every operation preserves the invariant when `SetNode` performs all removals before all
 insertions (the repaired order). -/
 theorem inv_step_repaired (s : State) (op : Op) (h : Inv s) : Inv (step .removalsFirst s op).1 := by
   cases op with
-  | regEntity t se => exact regEntity_inv s t se h
+  | regEntity t se => exact regEntity_inv false s t se h
   | deregEntity t => exact deregEntity_inv s t h
-  | regNode t sn => exact regNode_inv_rf s t sn h
-  | regRuntime c rt => exact regRuntime_inv s c rt h
+  | regNode t sn => exact regNode_inv_rf false s t sn h
+  | regRuntime c rt => exact regRuntime_inv false s c rt h
+  | unfreeze t id => exact unfreezeNode_inv s t id h
   | epoch e => exact (epochTransition_spec s e h).2
+  | freeze id u => exact freezeNode_inv s id u h
+  | setBalance a v => exact setBalance_inv s a v h
 
 theorem inv_run_repaired (s : State) (ops : List Op) (h : Inv s) : Inv (run .removalsFirst s ops) := by
   induction ops generalizing s with
@@ -138,7 +142,7 @@ theorem inv_reachable (p : Params) (ops : List Op) : invB (run codeOrder (init p
 /-- For an accepted update of a registered node, `SetNode` in the interleaved order leaves the
 indexes consistent **iff** no key moves forward (new P2P = old VRF or old TLS, or new VRF = old TLS). -/
 theorem setNode_interleaved_iff (s : State) (t : Key) (sn : SignedNode) (cur : Node) (h : Inv s)
-    (hc : NodeChecks s t sn) (hcur : s.nodes.get sn.node.id = some cur) :
+    (hc : NodeChecks false s t sn) (hcur : s.nodes.get sn.node.id = some cur) :
     IndexInv (setNode .interleaved s (some cur) sn.node) ↔ ¬ forwardMove cur sn.node := by
   have ha := accepted_of_nodeChecks h.toIndexInv hc
   constructor
@@ -175,12 +179,15 @@ instance decSafeHist : (s : State) → (ops : List Op) → Decidable (SafeHist s
 theorem inv_step_interleaved_partial (s : State) (op : Op) (h : Inv s) (hs : NoForward s op) :
     Inv (step .interleaved s op).1 := by
   cases op with
-  | regEntity t se => exact regEntity_inv s t se h
+  | regEntity t se => exact regEntity_inv false s t se h
   | deregEntity t => exact deregEntity_inv s t h
   | regNode t sn =>
-    exact regNode_inv_il s t sn h (fun cur hc => by simp only [NoForward, hc] at hs; exact hs)
-  | regRuntime c rt => exact regRuntime_inv s c rt h
+    exact regNode_inv_il false s t sn h (fun cur hc => by simp only [NoForward, hc] at hs; exact hs)
+  | regRuntime c rt => exact regRuntime_inv false s c rt h
+  | unfreeze t id => exact unfreezeNode_inv s t id h
   | epoch e => exact (epochTransition_spec s e h).2
+  | freeze id u => exact freezeNode_inv s id u h
+  | setBalance a v => exact setBalance_inv s a v h
 
 theorem inv_run_interleaved_partial (s : State) (ops : List Op) (h : Inv s) (hs : SafeHist s ops) :
     Inv (run .interleaved s ops) := by
@@ -228,13 +235,14 @@ theorem f2_interleaved_violates :
 /-! ### failed operations change nothing; nothing aborts -/
 
 /-- In a state satisfying the invariant an operation either succeeds or leaves the state unchanged;
-in particular `deregisterEntity` never panics on a missing claim, the epoch transition never aborts,
-and `registerNode` never takes the "status missing after SetNode" path. -/
+in particular a registration refused for lack of stake leaves no trace, `deregisterEntity` never panics on
+a missing claim, the epoch transition never aborts, and `registerNode` never takes the "status missing
+after SetNode" path. -/
 theorem failed_op_changes_nothing (ord : Order) (s : State) (op : Op) (h : Inv s) :
     (step ord s op).2 = .ok ∨ (step ord s op).1 = s := by
   cases op with
   | regEntity t se =>
-    rcases regEntity_spec s t se with e | ⟨_, _, e⟩
+    rcases regEntity_spec false s t se with e | ⟨_, _, _, e⟩
     · exact Or.inr e
     · exact Or.inl (by simp only [step, e])
   | deregEntity t =>
@@ -242,14 +250,21 @@ theorem failed_op_changes_nothing (ord : Order) (s : State) (op : Op) (h : Inv s
     · exact Or.inr e
     · exact Or.inl (by simp only [step, e])
   | regNode t sn =>
-    rcases regNode_ok_or_unchanged ord s t sn h with e | ⟨_, e⟩
+    rcases regNode_ok_or_unchanged false ord s t sn h with e | ⟨_, e⟩
     · exact Or.inr e
     · exact Or.inl (by simp only [step, e])
   | regRuntime c rt =>
-    rcases regRuntime_spec s c rt with e | ⟨_, _, _, _, e⟩
+    rcases regRuntime_spec false s c rt with e | ⟨_, _, ⟨_, e⟩ | ⟨_, _, _, e⟩⟩
+    · exact Or.inr e
+    · exact Or.inl (by simp only [step, e])
+    · exact Or.inl (by simp only [step, e])
+  | unfreeze t id =>
+    rcases unfreezeNode_spec s t id with e | ⟨_, _, _, _, _, _, e⟩
     · exact Or.inr e
     · exact Or.inl (by simp only [step, e])
   | epoch e => exact Or.inl (epochTransition_spec s e h).1
+  | freeze id u => exact Or.inl rfl
+  | setBalance a v => exact Or.inl rfl
 
 /-! ### authority -/
 
@@ -259,6 +274,7 @@ entity itself while it owns no node and no runtime (`entity_removal_guard`). -/
 theorem authority_entity (ord : Order) (s : State) (op : Op) (e : Key) (h : Inv s)
     (hchg : (step ord s op).1.entities.get e ≠ s.entities.get e) :
     (∃ t se, op = .regEntity t se ∧ e = se.id ∧ t = se.id ∧ se.signer = se.id ∧ se.sigValid = true ∧
+        canAddClaim s s.claims (.ent se.id) .entity [Thr.entity] = true ∧
         (step ord s op).1.entities.get e = some se.nodes) ∨
     (∃ t, op = .deregEntity t ∧ e = t ∧ (step ord s op).1.entities.get e = none ∧
         (∀ id n, s.nodes.get id = some n → n.entity ≠ e) ∧
@@ -267,7 +283,7 @@ theorem authority_entity (ord : Order) (s : State) (op : Op) (e : Key) (h : Inv 
   | regEntity t se =>
     left
     simp only [step] at hchg ⊢
-    rcases regEntity_spec s t se with e' | ⟨hv, ht, e'⟩
+    rcases regEntity_spec false s t se with e' | ⟨hv, ht, hst, e'⟩
     · rw [e'] at hchg; exact absurd rfl hchg
     · rw [e'] at hchg ⊢
       simp only [regEntityOk, Map.get_set] at hchg ⊢
@@ -278,7 +294,7 @@ theorem authority_entity (ord : Order) (s : State) (op : Op) (e : Key) (h : Inv 
         split at hv; · cases hv
         rename_i h1 h2
         have hsig : se.signer = se.id := by simpa using h2
-        exact ⟨t, se, rfl, rfl, by rw [← ht, hsig], hsig, by simpa using h1, by simp⟩
+        exact ⟨t, se, rfl, rfl, by rw [← ht rfl, hsig], hsig, by simpa using h1, hst, by simp⟩
       · simp only [hid, if_false] at hchg; exact absurd rfl hchg
   | deregEntity t =>
     right
@@ -303,23 +319,31 @@ theorem authority_entity (ord : Order) (s : State) (op : Op) (e : Key) (h : Inv 
     simp only [step, regNode_entities] at hchg; exact absurd rfl hchg
   | regRuntime c rt =>
     simp only [step] at hchg
-    rcases regRuntime_spec s c rt with e' | ⟨_, _, _, _, e'⟩ <;> rw [e'] at hchg <;> exact absurd rfl hchg
+    rcases regRuntime_spec false s c rt with e' | ⟨_, _, ⟨_, e'⟩ | ⟨_, _, _, e'⟩⟩ <;> rw [e'] at hchg <;>
+      exact absurd rfl hchg
+  | unfreeze t id =>
+    simp only [step, (unfreezeNode_frame s t id).1] at hchg; exact absurd rfl hchg
   | epoch ep =>
     simp only [step, (epochTransition_entities_runtimes s ep).1] at hchg; exact absurd rfl hchg
+  | freeze id u =>
+    simp only [step, (freezeNode_frame s id u).1] at hchg; exact absurd rfl hchg
+  | setBalance a v => exact absurd rfl hchg
 
 /-- An entity cannot be removed while it owns nodes or runtimes. -/
 theorem entity_removal_guard (ord : Order) (s : State) (op : Op) (e : Key) (ws : List Key) (h : Inv s)
     (hreg : s.entities.get e = some ws) (hgone : (step ord s op).1.entities.get e = none) :
     (∀ id n, s.nodes.get id = some n → n.entity ≠ e) ∧ (∀ r rt, s.runtimes.get r = some rt → rt.entity ≠ e) := by
   have hchg : (step ord s op).1.entities.get e ≠ s.entities.get e := by rw [hgone, hreg]; simp
-  rcases authority_entity ord s op e h hchg with ⟨_, se, _, _, _, _, _, hnew⟩ | ⟨_, _, _, _, h1, h2⟩
+  rcases authority_entity ord s op e h hchg with ⟨_, se, _, _, _, _, _, _, hnew⟩ | ⟨_, _, _, _, h1, h2⟩
   · rw [hgone] at hnew; cases hnew
   · exact ⟨h1, h2⟩
 
 /-- **Nodes.**  A node record changes only by (a) a registration whose transaction signer is the node's
 identity key, whose descriptor carries valid signatures by the identity, consensus, VRF, TLS and P2P keys
 and by exactly five distinct keys in total, whose entity is registered and lists the node, which is not
-expired, and which — when the node exists — keeps its entity and consensus key; or (b) an epoch transition
+expired, whose entity's escrow balance covers the account's other claims plus the thresholds of the node's
+roles and runtimes, and which — when the node exists — keeps its entity and consensus key; or (b) an epoch
+transition
 that removes a node expired for longer than the debonding interval. -/
 theorem authority_node (ord : Order) (s : State) (op : Op) (i : Key) (h : Inv s)
     (hchg : (step ord s op).1.nodes.get i ≠ s.nodes.get i) :
@@ -330,20 +354,26 @@ theorem authority_node (ord : Order) (s : State) (op : Op) (i : Key) (h : Inv s)
         (dedup sn.signers).length = 5 ∧
         (∃ ws, s.entities.get sn.node.entity = some ws ∧ sn.node.id ∈ ws) ∧
         s.epoch < sn.node.expiration ∧
+        canAddClaim s s.claims (.ent sn.node.entity) (.node sn.node.id) (nodeThr sn.node) = true ∧
         (∀ cur, s.nodes.get i = some cur → cur.entity = sn.node.entity ∧ cur.cons = sn.node.cons)) ∨
     (∃ e n, op = .epoch e ∧ s.nodes.get i = some n ∧ (step ord s op).1.nodes.get i = none ∧
         n.expiration + s.params.debondingInterval < e) := by
   cases op with
   | regEntity t se =>
     simp only [step] at hchg
-    rcases regEntity_spec s t se with e' | ⟨_, _, e'⟩ <;> rw [e'] at hchg <;> exact absurd rfl hchg
+    rcases regEntity_spec false s t se with e' | ⟨_, _, _, e'⟩ <;> rw [e'] at hchg <;> exact absurd rfl hchg
   | deregEntity t =>
     simp only [step] at hchg
     rcases deregEntity_spec s t h with e' | ⟨_, _, _, e'⟩ <;> rw [e'] at hchg <;> exact absurd rfl hchg
+  | unfreeze t id =>
+    simp only [step, (unfreezeNode_frame s t id).2.1] at hchg; exact absurd rfl hchg
+  | freeze id u =>
+    simp only [step, (freezeNode_frame s id u).2.1] at hchg; exact absurd rfl hchg
+  | setBalance a v => exact absurd rfl hchg
   | regNode t sn =>
     left
     simp only [step] at hchg ⊢
-    rcases regNode_nodes ord s t sn with e' | ⟨hc, e'⟩
+    rcases regNode_nodes false ord s t sn with e' | ⟨hc, e'⟩
     · rw [e'] at hchg; exact absurd rfl hchg
     · rw [e'] at hchg ⊢
       simp only [Map.get_set] at hchg ⊢
@@ -351,8 +381,8 @@ theorem authority_node (ord : Order) (s : State) (op : Op) (i : Key) (h : Inv s)
       · subst hid
         obtain ⟨ws, hws, hv⟩ := hc.ent
         have ha := verifyNodeArgs_none hv
-        refine ⟨t, sn, rfl, rfl, hc.signer, by simp, ha.sigValid, ?_, ha.onlyFive, ⟨ws, hws, ha.inEntity⟩,
-          hc.notExpired, verifyExisting_none_same hc.update⟩
+        refine ⟨t, sn, rfl, rfl, hc.signer rfl, by simp, ha.sigValid, ?_, ha.onlyFive, ⟨ws, hws, ha.inEntity⟩,
+          hc.notExpired rfl, hc.stake, verifyExisting_none_same hc.update⟩
         intro k hk
         simp only [List.mem_cons, List.not_mem_nil, or_false] at hk
         rcases hk with rfl | rfl | rfl | rfl | rfl
@@ -364,7 +394,8 @@ theorem authority_node (ord : Order) (s : State) (op : Op) (i : Key) (h : Inv s)
       · simp only [hid, if_false] at hchg; exact absurd rfl hchg
   | regRuntime c rt =>
     simp only [step] at hchg
-    rcases regRuntime_spec s c rt with e' | ⟨_, _, _, _, e'⟩ <;> rw [e'] at hchg <;> exact absurd rfl hchg
+    rcases regRuntime_spec false s c rt with e' | ⟨_, _, ⟨_, e'⟩ | ⟨_, _, _, e'⟩⟩ <;> rw [e'] at hchg <;>
+      exact absurd rfl hchg
   | epoch e =>
     right
     simp only [step] at hchg ⊢
@@ -383,9 +414,14 @@ theorem authority_runtime (ord : Order) (s : State) (op : Op) (r : RtId) (h : In
       verifyRuntimeUpdate (s.runtimes.get rt.id) rt = none ∧
       ((step ord s op).1.runtimes.get r).map rtCore = some (rtCore rt) := by
   cases op with
+  | unfreeze t id =>
+    simp only [step, (unfreezeNode_frame s t id).2.2.1] at hchg; exact absurd rfl hchg
+  | freeze id u =>
+    simp only [step, (freezeNode_frame s id u).2.2.1] at hchg; exact absurd rfl hchg
+  | setBalance a v => exact absurd rfl hchg
   | regEntity t se =>
     simp only [step] at hchg
-    rcases regEntity_spec s t se with e' | ⟨_, _, e'⟩ <;> rw [e'] at hchg <;> exact absurd rfl hchg
+    rcases regEntity_spec false s t se with e' | ⟨_, _, _, e'⟩ <;> rw [e'] at hchg <;> exact absurd rfl hchg
   | deregEntity t =>
     simp only [step] at hchg
     rcases deregEntity_spec s t h with e' | ⟨_, _, _, e'⟩ <;> rw [e'] at hchg <;> exact absurd rfl hchg
@@ -393,10 +429,124 @@ theorem authority_runtime (ord : Order) (s : State) (op : Op) (r : RtId) (h : In
     simp only [step, regNode_runtimes] at hchg; exact absurd rfl hchg
   | regRuntime c rt =>
     simp only [step] at hchg ⊢
-    obtain ⟨h1, h2, h3, h4⟩ := regRuntime_runtimes s c rt r hchg
-    exact ⟨c, rt, rfl, h1, h2, h3, h4⟩
+    obtain ⟨h1, h2, h3, h4⟩ := regRuntime_runtimes false s c rt r hchg
+    exact ⟨c, rt, rfl, h1, h2 rfl, h3, h4⟩
   | epoch e =>
     simp only [step, (epochTransition_entities_runtimes s e).2] at hchg; exact absurd rfl hchg
+
+/-- **Runtimes: who may update, and which governance transitions exist.**  When the descriptor of an
+*existing* runtime changes, the caller is the owning entity's address if the runtime was entity-governed and
+the runtime's own address if it was runtime-governed (never anybody for a consensus-governed one); the kind
+is unchanged; the governance model is unchanged or goes from entity to runtime — so after the transition
+entity → runtime the entity can no longer update the runtime.  A *new* runtime is registered by the address
+its own descriptor names. -/
+theorem authority_runtime_update (ord : Order) (s : State) (op : Op) (r : RtId) (h : Inv s)
+    (hchg : ((step ord s op).1.runtimes.get r).map rtCore ≠ (s.runtimes.get r).map rtCore) :
+    ∃ c rt, op = .regRuntime c rt ∧ r = rt.id ∧
+      (match s.runtimes.get r with
+       | some cur =>
+         cur.kind = rt.kind ∧ (cur.gov = rt.gov ∨ (cur.gov = .entity ∧ rt.gov = .runtime)) ∧
+         ((cur.gov = .entity ∧ c = .ent cur.entity) ∨ (cur.gov = .runtime ∧ c = .rt r))
+       | none => (rt.gov = .entity ∧ c = .ent rt.entity) ∨ (rt.gov = .runtime ∧ c = .rt r)) := by
+  obtain ⟨c, rt, hop, hr, hc, hv, _⟩ := authority_runtime ord s op r h hchg
+  refine ⟨c, rt, hop, hr, ?_⟩
+  subst hr
+  cases hex : s.runtimes.get rt.id with
+  | none =>
+    simp only [runtimeToCheck, hex] at hc
+    cases hg : rt.gov <;> simp [Runtime.stakingAddr, hg] at hc ⊢ <;> exact hc.symm
+  | some cur =>
+    simp only [runtimeToCheck, hex] at hc
+    simp only [verifyRuntimeUpdate, hex] at hv
+    split at hv; · cases hv
+    split at hv; · cases hv
+    rename_i h1 h2
+    have hid := h.rt_id rt.id cur hex
+    refine ⟨by simpa using h1, ?_, ?_⟩
+    · by_cases hg : cur.gov = rt.gov
+      · exact Or.inl hg
+      · right
+        have := not_and.1 h2 hg
+        simpa using this
+    · cases hg : cur.gov <;> simp [Runtime.stakingAddr, hg, hid] at hc ⊢ <;> exact hc.symm
+
+/-! ### stake claims with thresholds -/
+
+/-- In every state satisfying the invariant the stake accumulator of every account holds exactly the
+implied claims, with exactly the implied threshold lists: the entity claim `[entity]` of a registered
+entity, per registered node (expired ones included until they are removed) the node claim on its entity's
+account with the thresholds of its *current* roles and runtimes, per registered (active or suspended)
+runtime the runtime claim on its staking address. -/
+theorem claims_exact (s : State) (h : invB s = true) (a : Addr) (c : Claim) (ths : List Thr) :
+    s.claims.get (a, c) = some ths ↔ Implied s a ths c :=
+  ⟨((invB_iff s).1 h).cl_sound a c ths, ((invB_iff s).1 h).cl_compl a c ths⟩
+
+/-- The thresholds of a node's claim always follow its current descriptor: a re-registration that adds
+roles or runtimes replaces the claim's threshold list (and is refused, changing nothing, if the escrow
+balance does not cover it — `authority_node`, `failed_op_changes_nothing`). -/
+theorem node_claim_thresholds_current (p : Params) (ops : List Op) (i : Key) (n : Node)
+    (hn : (run codeOrder (init p) ops).nodes.get i = some n) :
+    (run codeOrder (init p) ops).claims.get (.ent n.entity, .node i) = some (nodeThr n) :=
+  ((invB_iff _).1 (inv_reachable_repaired p ops)).cl_compl _ _ _ ⟨n, hn, rfl, rfl⟩
+
+/-! ### InitChain -/
+
+/-- `InitChain` establishes the invariant: for every genesis document (entities, runtimes incl.
+consensus-governed and suspended ones, nodes incl. expired ones, node statuses incl. statuses of unknown
+nodes), whether it is accepted or aborts part-way, from any prior state satisfying the invariant (e.g.
+the empty state with escrow balances set by the staking genesis). -/
+theorem inv_initChain (s : State) (g : Genesis) (h : Inv s) : Inv (initChain codeOrder s g).1 :=
+  initChain_inv s g h
+
+/-- Every history that starts from a genesis document keeps the invariant. -/
+theorem inv_reachable_from_genesis (p : Params) (pre : List Op) (g : Genesis) (ops : List Op) :
+    invB (run codeOrder (initChain codeOrder (run codeOrder (init p) pre) g).1 ops) = true :=
+  (invB_iff _).2 (inv_run_repaired _ ops (initChain_inv _ g (inv_run_repaired _ pre (inv_init p)))).toInvL
+
+/-! ### node status, expiry and the debonding window -/
+
+/-- `UnfreezeNode` changes something only when signed by the entity that owns the node and only after
+the freeze period has ended; it touches nothing but the node's status record. -/
+theorem authority_unfreeze (s : State) (t id : Key) (hchg : (unfreezeNode s t id).1 ≠ s) :
+    ∃ n st, s.nodes.get id = some n ∧ t = n.entity ∧ s.status.get id = some st ∧ st.freezeEndTime ≤ s.epoch ∧
+      (unfreezeNode s t id).1 = { s with status := s.status.set id { st with freezeEndTime := 0 } } := by
+  rcases unfreezeNode_spec s t id with e | ⟨n, st, h1, h2, h3, h4, e⟩
+  · exact absurd e hchg
+  · exact ⟨n, st, h1, h2, h3, h4, by rw [e]⟩
+
+/-- A frozen node cannot lift its freeze by re-registering: a successful `registerNode` of an existing
+node keeps the `FreezeEndTime` of its status (only `ExpirationProcessed` is reset when it was expired). -/
+theorem reregistration_keeps_freeze (ord : Order) (s : State) (n cur : Node) (st : Status)
+    (hcur : s.nodes.get n.id = some cur) (hst : s.status.get n.id = some st) :
+    ∃ st', (regNodeOk ord s n).status.get n.id = some st' ∧ st'.freezeEndTime = st.freezeEndTime := by
+  have : (regNodeOk ord s n).status = regNodeStatus s (s.nodes.get n.id) n (s.status.get n.id) := rfl
+  rw [this, hcur, hst]
+  simp only [regNodeStatus]
+  split
+  · exact ⟨freshStatus (some st), by simp [Map.get_set], rfl⟩
+  · exact ⟨st, hst, rfl⟩
+
+/-- An expired node stays registered — with all its index entries and its stake claim — until it has
+been expired for longer than the debonding interval: an epoch transition to `e` with
+`expiration + debondingInterval ≥ e` leaves its record untouched. -/
+theorem expired_node_kept_within_debonding (s : State) (e : Nat) (h : Inv s) (i : Key) (n : Node)
+    (hn : s.nodes.get i = some n) (hwin : e ≤ n.expiration + s.params.debondingInterval) :
+    (epochTransition s e).1.nodes.get i = some n := by
+  rcases epochTransition_nodes s e h i with e' | ⟨_, m, hm, hexp⟩
+  · rw [e', hn]
+  · rw [hn] at hm; cases hm; omega
+
+/-- The keys of a registered node — also of an expired one that has not been removed yet — are not free:
+a registration of a *different* node that uses one of them as a sub-key has no effect on the state. -/
+theorem registered_node_keys_not_free (ord : Order) (s : State) (h : Inv s) (i : Key) (n : Node)
+    (hn : s.nodes.get i = some n) (t : Key) (sn : SignedNode) (hother : sn.node.id ≠ i) (k : Key)
+    (hkn : k ∈ subKeys n) (hks : k ∈ subKeys sn.node) :
+    (regNode false ord s t sn).1 = s := by
+  rcases regNode_spec false ord s t sn with e | ⟨hc, _⟩
+  · exact e
+  · have ha := accepted_of_nodeChecks h.toIndexInv hc
+    have hkm := h.km_compl i n hn k hkn
+    exact absurd (ha.free k hks i hkm ⟨n, hn⟩).symm hother
 
 /-! ### two corners the code permits (recorded, not part of the invariant) -/
 
@@ -409,8 +559,8 @@ whatsoever (here key 8) — although the code intends "only the expected signatu
 theorem extra_signature_accepted_when_id_is_subkey :
     let n : Node := { id := 4, entity := 1, cons := 15, p2p := 4, tls := 18, vrf := 17, expiration := 3, roles := 8, runtimes := [] }
     let s := run .removalsFirst (init f2Params) [cornerEntity]
-    (regNode .removalsFirst s 4 { node := n, signers := [4, 15, 18, 17, 8], sigValid := true }).2 = .ok ∧
-    (regNode .removalsFirst s 4 { node := n, signers := [4, 15, 18, 17], sigValid := true }).2 = .invalidArgument "signatures" := by
+    (regNode false .removalsFirst s 4 { node := n, signers := [4, 15, 18, 17, 8], sigValid := true }).2 = .ok ∧
+    (regNode false .removalsFirst s 4 { node := n, signers := [4, 15, 18, 17], sigValid := true }).2 = .invalidArgument "signatures" := by
   decide
 
 /-! ### the uniqueness clause with identity keys (known finding `key-shared-node-id-as-subkey`) -/
@@ -526,10 +676,57 @@ example : invB (run .interleaved (init f2Params) demoHistory) = true :=
   inv_reachable_interleaved_partial f2Params demoHistory (by decide)
 example : (run .removalsFirst (init f2Params) demoHistory).claims.keys.length = 4 := by decide
 /-- hypotheses of `setNode_interleaved_iff` / `authority_node` are satisfiable: the second step of F2 -/
-example : ∃ s t sn cur, Inv s ∧ NodeChecks s t sn ∧ s.nodes.get sn.node.id = some cur ∧ forwardMove cur sn.node :=
+example : ∃ s t sn cur, Inv s ∧ NodeChecks false s t sn ∧ s.nodes.get sn.node.id = some cur ∧ forwardMove cur sn.node :=
   ⟨run .removalsFirst (init f2Params) (f2History.take 2), 4, signedBy f2Node', f2Node,
-    inv_run_repaired _ _ (inv_init _), ⟨⟨[4], by decide, by decide⟩, by decide, by decide, by decide⟩, by decide, by decide⟩
+    inv_run_repaired _ _ (inv_init _),
+    ⟨⟨[4], by decide, by decide⟩, fun _ => by decide, fun _ => by decide, by decide, by decide⟩, by decide, by decide⟩
 /-- the entity removal guard bites: entity 1 owns nodes, its deregistration is refused -/
 example : (step .removalsFirst (run .removalsFirst (init f2Params) demoHistory) (.deregEntity 1)).2 = .entityHasNodes := by decide
+
+
+/-- Non-zero thresholds (entity 3, validator 2, compute 5, observer 1, key manager 4, runtimes 2): entity 1
+holds 7, registers itself (3), a compute runtime (2) and validator node 4 (2) — exactly covered; adding the
+compute role with the runtime (thresholds [validator, compute] = 7) is refused for lack of stake and changes
+nothing; after the balance rises to 12 it succeeds and the claim's thresholds follow; node 4 is frozen
+until epoch 3, its entity cannot unfreeze it at epoch 0 but can at epoch 3; a foreign key never can. -/
+def stakedParams : Params := { maxNodeExpiration := 5, debondingInterval := 1, thresholds := [3, 2, 5, 1, 4, 2, 2] }
+def stakedHistory : List Op :=
+  [ .setBalance (.ent 1) 7,
+    .regEntity 1 { id := 1, nodes := [4], signer := 1, sigValid := true },
+    .regRuntime (.ent 1) { id := 1, entity := 1, gov := .entity, kind := .compute, suspended := false },
+    .regNode 4 (signedBy f2Node),
+    .regNode 4 (signedBy { f2Node with roles := 9, runtimes := [1] }),
+    .setBalance (.ent 1) 12,
+    .regNode 4 (signedBy { f2Node with roles := 9, runtimes := [1] }),
+    .freeze 4 3,
+    .unfreeze 1 4,
+    .epoch 3,
+    .unfreeze 2 4,
+    .unfreeze 1 4 ]
+
+example : results codeOrder (init stakedParams) stakedHistory =
+    [.ok, .ok, .ok, .ok, .insufficientStake, .ok, .ok, .ok, .nodeCannotBeUnfrozen, .ok, .badEntityForNode, .ok] := by
+  decide
+example : (run codeOrder (init stakedParams) stakedHistory).claims.get (.ent 1, .node 4) =
+    some [Thr.nodeValidator, Thr.nodeCompute] := by decide
+example : invStrongB (run codeOrder (init stakedParams) stakedHistory) = true := by decide
+
+/-- A genesis document: two entities, a consensus-governed and a suspended runtime, two nodes (one of them
+already expired), a status of a node that is not registered. -/
+def demoGenesis : Genesis :=
+  { entities := [{ id := 1, nodes := [4, 5], signer := 1, sigValid := true }, { id := 2, nodes := [6], signer := 2, sigValid := true }],
+    runtimes := [{ id := 1, entity := 1, gov := .consensus, kind := .compute, suspended := false },
+                 { id := 4, entity := 2, gov := .entity, kind := .keymanager, suspended := false }],
+    suspendedRuntimes := [{ id := 2, entity := 1, gov := .runtime, kind := .compute, suspended := false }],
+    nodes := [signedBy f2Node, signedBy { id := 6, entity := 2, cons := 17, p2p := 18, tls := 19, vrf := 20, expiration := 0, roles := 8, runtimes := [] }],
+    statuses := [(4, { expirationProcessed := false, freezeEndTime := 2 }), (23, { expirationProcessed := true, freezeEndTime := 0 })] }
+
+def genesisPre : List Op := [.setBalance (.ent 1) 9, .setBalance (.ent 2) 9, .setBalance (.rt 2) 2]
+
+example : (initChain codeOrder (run codeOrder (init stakedParams) genesisPre) demoGenesis).2 = .ok := by decide
+example : ((initChain codeOrder (run codeOrder (init stakedParams) genesisPre) demoGenesis).1.nodes.keys.length,
+           (initChain codeOrder (run codeOrder (init stakedParams) genesisPre) demoGenesis).1.claims.keys.length) = (2, 6) := by
+  decide
+example : invStrongB (initChain codeOrder (run codeOrder (init stakedParams) genesisPre) demoGenesis).1 = true := by decide
 
 end OasisProofs.C17
